@@ -132,8 +132,7 @@ def h_loop(g, N, T, body_name, shift):
     g.fact("roll restores the register", prog.num_subsystems == N and prog.init_num_subsystems == N and not prog.is_unrolled)
 
 
-def h_history(g, N, T, calls_seq):
-    """every sequence of unroll / space_unroll / roll calls leaves the expected circuit form; roll restores everything"""
+def _tdm_template(N, T):
     import strawberryfields as sf
     from strawberryfields import ops
     arrays = [[0.1 * (t + 1) for t in range(T)], [0.2 * (t + 1) for t in range(T)]]
@@ -142,6 +141,17 @@ def h_history(g, N, T, calls_seq):
         ops.Sgate(0.5, 0.0) | q[N - 1]
         ops.BSgate(lp[0], 0.0) | (q[0], q[N - 1])
         ops.MeasureHomodyne(lp[1]) | q[0]
+    return prog
+
+
+def _circuit_signature(prog):
+    return [(type(c.op).__name__, [r.ind for r in c.reg], [float(x) for x in c.op.p]) for c in prog.circuit]
+
+
+def h_history(g, N, T, calls_seq):
+    """every sequence of unroll / space_unroll / roll calls leaves the expected circuit form -- the same circuit a fresh
+    program gives when unrolled directly -- and roll restores everything"""
+    prog = _tdm_template(N, T)
     rolled = list(prog.circuit)
     n0, i0 = prog.num_subsystems, prog.init_num_subsystems
     for c in calls_seq:
@@ -158,6 +168,10 @@ def h_history(g, N, T, calls_seq):
                 continue
             g.fact("after unroll(%d): %d commands" % (c[1], 3 * T * c[1]), len(prog.circuit) == 3 * T * c[1],
                    detail=str(len(prog.circuit)))
+            fresh = _tdm_template(N, T)
+            fresh.unroll(shots=c[1])
+            g.fact("unroll(%d) after this history == unroll(%d) of a fresh program" % (c[1], c[1]),
+                   _circuit_signature(prog) == _circuit_signature(fresh))
             g.fact("after unroll: register size unchanged", prog.num_subsystems == n0)
         elif c[0] == "space_unroll":
             try:
@@ -166,6 +180,9 @@ def h_history(g, N, T, calls_seq):
                 g.fact("space_unroll refuses an unrolled program", prog.unrolled_circuit is not None)
                 continue
             g.fact("after space_unroll: T+N-1 modes", prog.num_subsystems == T + N - 1, detail=str(prog.num_subsystems))
+            fresh = _tdm_template(N, T)
+            fresh.space_unroll(shots=c[1])
+            g.fact("space_unroll after this history == space_unroll of a fresh program", _circuit_signature(prog) == _circuit_signature(fresh))
 
 
 def build(ctx):
@@ -189,9 +206,11 @@ def build(ctx):
         seqs = [s for s in seqs if len(s) <= 2 or s[-1] == "roll"]
     for s in seqs:
         nm = "|".join(x if isinstance(x, str) else "%s(%d)" % x for x in s)
-        ctx.add("history.%s" % nm, h_history, {"N": 2, "T": 3, "calls_seq": [list(x) if not isinstance(x, str) else x for x in s]},
-                modules=mods, functions=fns + ["TDMProgram.space_unroll"], bounds={"concurrent_modes": 2, "timebins": 3, "calls": len(s)},
-                validate_points=0)
+        for (N_, T_) in ((2, 3), (3, 4)):
+            ctx.add("history.N%dT%d.%s" % (N_, T_, nm), h_history,
+                    {"N": N_, "T": T_, "calls_seq": [list(x) if not isinstance(x, str) else x for x in s]},
+                    modules=mods, functions=fns + ["TDMProgram.space_unroll"],
+                    bounds={"concurrent_modes": N_, "timebins": T_, "calls": len(s)}, validate_points=0)
 
 
 def xh(ctx):
